@@ -197,6 +197,14 @@ def path_failure_is_false(ctx):
     yield Ob("C09.R2", ["C09", "C01"], f"{r.qual} | walks keys and map functions in order", not bad,
              "; ".join(bad) if bad else "value[part] for str parts, part(value) for callables; failures propagate",
              r.loc())
+    gi = ctx.prog.func("BaseQuery.__getitem__", "C09.R2")
+    rets = [norm(r.value) for r in walk_local(gi.node) if isinstance(r, ast.Return)]
+    item = gi.params()[1]
+    ok = rets == [f"self.__getattr__({item})"]
+    yield Ob("C09.R2", ["C09"], f"{gi.qual} | item syntax is key access", ok,
+             "q[key] is q.__getattr__(key): every string is a key" if ok else
+             f"q[key] returns `{rets}`: ordinary attribute lookup comes first, so keys that collide with a method or "
+             f"attribute name (test, map, search, exists, ...) do not address the point's key", gi.loc())
     # __getattr__ / map extend the path at the end
     for q, expect in (("BaseQuery.__getattr__", "self._path + (item,)"), ("BaseQuery.map", "self._path + (func,)")):
         g = ctx.prog.func(q, "C09.R2")
@@ -235,6 +243,10 @@ def boolean_operators(ctx):
                 st = stmt_of(cs[0])
                 if not isinstance(st, ast.Return):
                     bad.append("the CompoundQuery is not returned")
+                for r in walk_local(f.node):
+                    if isinstance(r, ast.Return) and r is not st:
+                        bad.append(f"`{norm(r, 50)}` returns something other than the combination: for some operands "
+                                   f"the operator is not applied at all")
             yield Ob("C09.R3", ["C09", "C17"], f"{f.qual} | builds {opn}", not bad,
                      "; ".join(bad) if bad else f"CompoundQuery(self, {'other' if arity == 2 else 'None'}, {opn})",
                      f.loc())
@@ -405,10 +417,78 @@ def identity_completeness(ctx):
                  "tinyflux/queries.py:0")
 
 
-def _combinator_identity(f: Func) -> Tuple[Optional[str], Optional[str], List[str]]:
-    """(head literal, container kind, problems) of the hashval built in a combinator."""
+def identity_cases(ctx, f: Func):
+    """[(set of unit guard literals, value AST)] for the identity handed to CompoundQuery in a
+    combinator, with a private helper function inlined one level (parameters substituted)."""
+    from ..model import clone_expr
+    cq = [n for n in walk_local(f.node) if isinstance(n, ast.Call) and isinstance(n.func, ast.Name)
+          and n.func.id == "CompoundQuery"]
+    if len(cq) != 1:
+        return None
+    h = cq[0].args[3] if len(cq[0].args) > 3 else kw(cq[0], "hashval")
+    if h is None:
+        return None
+
+    def lits(node, mapping=None):
+        out = set()
+        for c in guard_clauses(guards(node)):
+            if len(c) == 1:
+                a, pol = next(iter(c))
+                if mapping:
+                    for k, v in mapping.items():
+                        a = re.sub(rf"(?<![\w.]){re.escape(k)}(?![\w])", v, a)
+                out.add((a, pol))
+        return out
+
+    import re
+    cases = []
+
+    def expand(value, conds, depth=0):
+        if isinstance(value, ast.IfExp):
+            t = norm(value.test)
+            expand(value.body, conds | {(f"truthy({t})", True)}, depth)
+            expand(value.orelse, conds | {(f"truthy({t})", False)}, depth)
+            return
+        if isinstance(value, ast.Call) and isinstance(value.func, ast.Name) and depth < 2:
+            tg = ctx.res.resolve_name(value.func.id, f)
+            if tg and isinstance(tg[0], Func) and tg[0].module == "queries" and tg[0].cls is None:
+                g = tg[0]
+                b, _ = bind_args(value, g, skip_self=False)
+                mapping = {k: norm(v) for k, v in b.items()}
+
+                class Sub(ast.NodeTransformer):
+                    def visit_Name(self, n):
+                        if n.id in b:
+                            return clone_expr(b[n.id])
+                        return n
+                for r in walk_local(g.node):
+                    if isinstance(r, ast.Return) and r.value is not None:
+                        v2 = ast.fix_missing_locations(Sub().visit(clone_expr(r.value)))
+                        # AND of the substituted conditions of the return
+                        c2 = set()
+                        for a, pol in lits(r, mapping):
+                            c2.add((a, pol))
+                        # conjunctions like `a and b` appear as separate unit clauses already
+                        expand(v2, conds | c2, depth + 1)
+                return
+        cases.append((conds, value))
+
+    if isinstance(h, ast.Name):
+        for n in walk_local(f.node):
+            if isinstance(n, ast.Assign) and any(isinstance(t, ast.Name) and t.id == h.id for t in n.targets):
+                expand(n.value, lits(n))
+    else:
+        expand(h, lits(cq[0]))
+    return cases
+
+
+def _combinator_identity(ctx, f: Func) -> Tuple[Optional[str], Optional[str], List[str]]:
+    """(head literal, container kind, problems) of the identity built in a combinator."""
     problems: List[str] = []
-    vals = [v for v in assignments_to(f, "hashval") if not (isinstance(v, ast.Constant) and v.value is None)]
+    cases = identity_cases(ctx, f)
+    if cases is None:
+        return None, None, ["identity handed to CompoundQuery not found"]
+    vals = [v for c, v in cases if not (isinstance(v, ast.Constant) and v.value is None)]
     if len(vals) != 1 or not isinstance(vals[0], ast.Tuple) or len(vals[0].elts) != 2:
         return None, None, ["identity is not a (head, operands) pair"]
     head = const_value(vals[0].elts[0])
@@ -435,8 +515,8 @@ def combinator_identity_agreement(ctx):
     for dn, (opn, arity) in BOOL.items():
         a = ctx.prog.func(f"SimpleQuery.{dn}", "C17.R2")
         b = ctx.prog.func(f"CompoundQuery.{dn}", "C17.R2")
-        ha, ka, pa = _combinator_identity(a)
-        hb, kb, pb = _combinator_identity(b)
+        ha, ka, pa = _combinator_identity(ctx, a)
+        hb, kb, pb = _combinator_identity(ctx, b)
         bad = pa + pb
         if ha != hb and arity == 2:
             bad.append(f"heads differ: SimpleQuery uses {ha!r}, CompoundQuery uses {hb!r}; `a {dn} (b ..)` and the "
@@ -461,21 +541,19 @@ def unhashable_never_equal(ctx):
         for dn, (opn, arity) in BOOL.items():
             f = ctx.prog.func(f"{cls}.{dn}", "C17.R3")
             bad = []
-            for n in walk_local(f.node):
-                if isinstance(n, ast.Assign) and norm(n.targets[0]) == "hashval" and not (
-                        isinstance(n.value, ast.Constant) and n.value.value is None):
-                    cl = guard_clauses(guards(n))
-                    need = ["self.is_hashable()"] + ([f"{f.params()[1]}.is_hashable()"] if arity == 2 else [])
-                    for nd in need:
-                        if not any(len(c) == 1 and next(iter(c)) == (f"truthy({nd})", True) for c in cl):
-                            bad.append(f"identity is built without requiring {nd}")
-            vals = assignments_to(f, "hashval")
-            if not any(isinstance(v, ast.Constant) and v.value is None for v in vals):
-                bad.append("no `hashval = None` fallback")
-            cq = [n for n in walk_local(f.node) if isinstance(n, ast.Call) and isinstance(n.func, ast.Name)
-                  and n.func.id == "CompoundQuery"]
-            if cq and norm(cq[0].args[-1] if cq[0].args else kw(cq[0], "hashval")) != "hashval":
-                bad.append("the computed identity is not the one passed to CompoundQuery")
+            cases = identity_cases(ctx, f)
+            if cases is None:
+                bad.append("identity handed to CompoundQuery not found")
+                cases = []
+            need = ["self.is_hashable()"] + ([f"{f.params()[1]}.is_hashable()"] if arity == 2 else [])
+            for conds, v in cases:
+                if isinstance(v, ast.Constant) and v.value is None:
+                    continue
+                for nd in need:
+                    if (f"truthy({nd})", True) not in conds:
+                        bad.append(f"identity is built without requiring {nd}")
+            if not any(isinstance(v, ast.Constant) and v.value is None for c, v in cases):
+                bad.append("no `None` identity for unhashable operands")
             yield Ob("C17.R3", ["C17"], f"{f.qual} | identity requires hashable operands", not bad,
                      "; ".join(bad) if bad else "identity only when every operand is hashable, else None", f.loc())
         eq = ctx.prog.func(f"{cls}.__eq__", "C17.R3")
@@ -545,7 +623,7 @@ PAT_SIGS = {"match": ("string", "pos", "endpos"), "search": ("string", "pos", "e
             "fullmatch": ("string", "pos", "endpos")}
 
 
-@rule("C09.R5", ["C09"], min_instances=2, design="3.9")
+@rule("C09.R5", ["C09", "C01"], min_instances=2, design="3.9")
 def regex_argument_binding(ctx):
     """matches()/search() hand (pattern=regex, string=value, flags=flags) to re.match / re.search respectively."""
     for meth, fn in (("matches", "match"), ("search", "search")):
@@ -603,5 +681,5 @@ def regex_argument_binding(ctx):
         rets = [r for r in walk_local(g.node) if isinstance(r, ast.Return) and const_value(r.value) is not False]
         if not any(norm(r.value).endswith("is not None") for r in rets):
             bad.append("verdict is not `<match object> is not None`")
-        yield Ob("C09.R5", ["C09"], f"{f.qual} | regex argument binding", not bad,
+        yield Ob("C09.R5", ["C09", "C01"], f"{f.qual} | regex argument binding", not bad,
                  "; ".join(bad[:3]) if bad else f"re.{fn}(pattern={rx}, string=value, flags={fl})", f.loc())
